@@ -312,9 +312,10 @@ def run(which, timeout_ms=10000):
 def feed(report, tier):
     from engine.verdict import Ob
     to = 10000 if tier == 'quick' else 60000
-    for which in ('rowtypes', 'bounds'):
+    for which in ('rowtypes', 'bounds', 'empty-rows'):
         try:
-            obs = run(which, to)
+            obs = run_empty_rows(to) if which == 'empty-rows' else \
+                run(which, to)
         except KeyError as e:
             report.error('function under contract no longer exists: %s' % e)
             return
@@ -341,3 +342,200 @@ def feed(report, tier):
         "{'L','G','E'}, ranges[l] None or float, bounds[l] a pair of "
         'None-or-float); modeling comparisons f <= a, f >= a, f == a build '
         'the constraint they denote']
+
+
+# ------------------------------------------------ rows without variables
+class EmptyCon:
+    """a constraint c with a symbolic number of variables, a type and a
+    constant; `self._inequalities + self._equalities` is a sequence with one
+    arbitrary such element"""
+    abs_object = True
+
+    def __init__(self, nv, iseq, const):
+        self.nv, self.iseq, self.const = nv, iseq, const
+
+    def abs_getattr(self, ex, st, attr, n):
+        if attr == '_f':
+            return _Path(self, ('_f',))
+        if attr == 'name':
+            return 'row'
+        return core.NOTFOUND
+
+    def abs_method(self, ex, st, name, args, kwargs, n):
+        if name == 'type':
+            return _TypeStr(self.iseq)
+        raise Unsupported('constraint.%s' % name)
+
+    def abs_eq(self, ex, st, o):
+        return o is self
+
+
+class _TypeStr:
+    def __init__(self, iseq):
+        self.iseq = iseq
+
+    def abs_eq(self, ex, st, o):
+        if o == '=':
+            return self.iseq
+        if o == '<':
+            return z3.Not(self.iseq)
+        return False
+
+
+class _Path:
+    def __init__(self, con, path):
+        self.con, self.path = con, path
+
+    def abs_getattr(self, ex, st, attr, n):
+        p = self.path + (attr,)
+        if p == ('_f', '_linear', '_coeff'):
+            return _Sized(self.con.nv)
+        return _Path(self.con, p)
+
+    def abs_getitem(self, ex, st, idx, n):
+        if self.path == ('_f', '_constant'):
+            return R(self.con.const)
+        raise Unsupported('item of %r' % (self.path,))
+
+
+class _Sized:
+    def __init__(self, ln):
+        self.ln = ln
+
+
+class RemList:
+    """self._inequalities / self._equalities: removals are recorded; `a + b`
+    is a NEW sequence (iterating it does not alias the lists)"""
+    def __init__(self, name, elem):
+        self.name, self.elem = name, elem
+
+    def abs_binop(self, ex, st, op, b, n):
+        return OneItem(self.elem)
+
+    def abs_method(self, ex, st, name, args, kwargs, n):
+        if name == 'remove':
+            st.ghost['removed'] = st.ghost.get('removed', ()) + (
+                (self.name, args[0]),)
+            return None
+        raise Unsupported('list.%s' % name)
+
+    def abs_getattr(self, ex, st, attr, n):
+        return core.NOTFOUND
+
+    def abs_loop(self, ex, st, s, fid):
+        # iterating the list itself while the body removes from it
+        st.ghost['iterates_own_list'] = True
+        return OneItem(self.elem).abs_loop(ex, st, s, fid)
+
+
+_len1 = L.ext.get('builtins.len')
+
+
+@L.register('builtins.len', pure=True)
+def b_len1(ex, st, args, kwargs, n):
+    if isinstance(args[0], _Sized):
+        return I(args[0].ln)
+    return _len1(ex, st, args, kwargs, n)
+
+
+@L.register('builtins.print')
+def b_print(ex, st, args, kwargs, n):
+    return None
+
+
+def run_empty_rows(timeout_ms=10000):
+    tree, src = driver.load_module('modeling.py')
+
+    def sl(fn):
+        out = [s for s in fn.body if isinstance(s, ast.For) and any(
+            isinstance(x, ast.Call) and isinstance(x.func, ast.Attribute)
+            and x.func.attr == 'remove' for x in ast.walk(s))]
+        if not out:
+            raise Unsupported('anchor: no loop that removes constraints')
+        return out
+    ex = core.Executor(tree, 'cvxopt.modeling', L, {'body_slice': sl,
+                                                     'unroll': 8})
+    obs = []
+
+    def add(oid, status, text, line=0, model=None, detail=None):
+        obs.append({'id': 'modeling.py:op.fromfile:reader-semantics:' + oid,
+                    'kind': 'reader-semantics', 'status': status,
+                    'text': text, 'line': line, 'model': model,
+                    'detail': detail,
+                    'by': ['z3'] if status == 'proved' else []})
+
+    def setup(ex_, st, fid, fn):
+        fr = st.frames[fid]
+        nv = z3.Int('number of variables')
+        iseq = z3.Bool('is equality')
+        const = z3.Real('constant')
+        st.pc.append(nv >= 0)
+        c = EmptyCon(nv, iseq, const)
+        fr['self'] = _SelfLists(RemList('_inequalities', c),
+                                RemList('_equalities', c))
+        st.ghost['frame_check'] = False
+        st.ghost['con'] = c
+    ex.find_function('op.fromfile')
+    try:
+        outs = ex.run_function('op.fromfile', setup)
+    except Unsupported as e:
+        add('empty-rows:supported', 'undecided', 'the loop that removes '
+            'rows without variables is inside the supported subset',
+            detail=str(e))
+        return obs
+    nret = 0
+    for o in outs:
+        st = o.st
+        c = st.ghost['con']
+        empty = c.nv == 0
+        # consistent: the row 0 = const (resp. 0 <= ... i.e. const <= 0)
+        consistent = z3.If(c.iseq, c.const == 0, c.const <= 0)
+        if st.ghost.get('iterates_own_list'):
+            add('empty-rows:iteration', 'refuted', 'the loop that removes '
+                'rows without variables iterates over a new sequence, not '
+                'over a list it removes from (a removal would make it skip '
+                'the next row)')
+        if o.kind == 'raise':
+            ok = o.val[0] == 'ValueError'
+            r = ex.check(st.pc, [z3.Not(z3.And(empty, z3.Not(consistent)))])
+            add('empty-rows:refusal', 'proved' if ok and r == z3.unsat else
+                'refuted', 'ValueError is raised exactly for a row without '
+                'variables whose constant contradicts it (%s)' %
+                (o.val[0],), o.val[2] if len(o.val) > 2 else 0)
+            continue
+        nret += 1
+        rem = st.ghost.get('removed', ())
+        want_list = None
+        if len(rem) == 0:
+            goal = z3.Not(z3.And(empty, consistent))
+            if ex.check(st.pc, [z3.Not(empty)]) == z3.unsat:
+                goal = z3.BoolVal(False)
+        elif len(rem) == 1 and rem[0][1] is c:
+            goal = z3.And(empty, consistent,
+                          c.iseq if rem[0][0] == '_equalities'
+                          else z3.Not(c.iseq))
+        else:
+            goal = z3.BoolVal(False)
+        r = ex.check(st.pc, [z3.Not(goal)], timeout=timeout_ms)
+        add('empty-rows:removal', 'proved' if r == z3.unsat else (
+            'refuted' if r == z3.sat else 'undecided'),
+            'a row is removed (from the list of its type, once) exactly '
+            'when it has no variables and its constant is consistent; rows '
+            'with variables are kept')
+    add('empty-rows:covered', 'proved' if nret >= 2 else 'undecided',
+        'paths that keep and that remove a row were examined (%d)' % nret)
+    return obs
+
+
+class _SelfLists:
+    abs_object = True
+
+    def __init__(self, ineq, eq):
+        self.ineq, self.eq = ineq, eq
+
+    def abs_getattr(self, ex, st, attr, n):
+        if attr == '_inequalities':
+            return self.ineq
+        if attr == '_equalities':
+            return self.eq
+        return core.NOTFOUND
